@@ -683,6 +683,25 @@ def debug_parity(ctx, R, anchors):
     """What a function does to program state must not depend on debug assertions being compiled in: the transitive write
     set and the set of crate functions reachable from each anchor are compared between the default extraction and one with
     `-C debug-assertions=off` (a mutation inside `debug_assert!(..)` exists in one of them only)."""
+    # Shortcut: the two extractions can differ only where the crate's own source mentions debug assertions
+    # (`debug_assert*!`, `cfg(debug_assertions)`, `cfg!(debug_assertions)`).  Without such a token in src/ the second
+    # extraction would be identical in everything this rule compares, and is not made.
+    import os as _os
+    mention = []
+    src = _os.path.join(ctx.repo, 'src')
+    for dp, _, fns in _os.walk(src):
+        for fn in fns:
+            if fn.endswith('.rs'):
+                try:
+                    txt = open(_os.path.join(dp, fn), errors='replace').read()
+                except OSError:
+                    continue
+                if 'debug_assert' in txt:
+                    mention.append(_os.path.relpath(_os.path.join(dp, fn), ctx.repo))
+    if not mention and _os.path.isdir(src):
+        ctx.ok(R, 'no `debug_assert` / `debug_assertions` token anywhere in src/: the crate is the same with and without debug '
+               'assertions (anchors: %s)' % ', '.join(k.rsplit('::', 1)[-1] for k in anchors), 'src/')
+        return
     try:
         e0, e1 = ctx.eff('default'), ctx.eff('nodebug')
         f0, f1 = ctx.facts('default'), ctx.facts('nodebug')
